@@ -63,3 +63,35 @@ Definition dump_text (o : dump_opts) (fuel : nat) (file : bytes) : option (list 
   | _ => None
   end.
 End Dump.
+
+(* ---- src/mtbl_info.c: print_info() in the C locale (no digit grouping) - the lines that carry the statistics.
+   Each is a fixed label padded to 23 columns and the decimal number; the two percentages and the compactness line
+   are floating-point renderings and are not modelled. *)
+From Mtbl Require Import gen.Consts model.Writer model.Compress.
+From Coq Require Import String Ascii.
+Fixpoint dec_digits (fuel : nat) (n : N) (acc : list N) : list N :=
+  match fuel with
+  | O => acc
+  | S f => let acc' := (48 + n mod 10) :: acc in if n <? 10 then acc' else dec_digits f (n / 10) acc'
+  end.
+Definition decimal (n : N) : list N := dec_digits 40 n [].
+Fixpoint chars (s : string) : list N :=
+  match s with EmptyString => [] | String c tl => N_of_ascii c :: chars tl end.
+Definition info_line (label : string) (n : N) : list N := chars label ++ decimal n.
+Record info_out := mkinfo {
+  io_index_block_offset : list N; io_index_bytes : list N; io_data_block_bytes : list N; io_data_block_size : list N;
+  io_data_block_count : list N; io_entry_count : list N; io_key_bytes : list N; io_value_bytes : list N; io_compression : list N }.
+(* the part of the line before " (xx.xx%)" for the two lines that carry a percentage *)
+Definition info_model (m : meta) : info_out :=
+  mkinfo (info_line "index block offset:    " (m_index_block_offset m))
+         (info_line "index bytes:           " (m_bytes_index_block m))
+         (info_line "data block bytes       " (m_bytes_data_blocks m))
+         (info_line "data block size:       " (m_data_block_size m))
+         (info_line "data block count       " (m_count_data_blocks m))
+         (info_line "entry count:           " (m_count_entries m))
+         (info_line "key bytes:             " (m_bytes_keys m))
+         (info_line "value bytes:           " (m_bytes_values m))
+         (chars "compression algorithm: " ++ match compression_type_to_str (m_compression_algorithm m) with
+                                             | Some s => chars s
+                                             | None => decimal (m_compression_algorithm m)
+                                             end).
